@@ -285,6 +285,13 @@ impl BVisitor for StaticCheck<'_> {
                 let mut p = PreparedQuery::<Q>::new();
                 let _ = p.query_mut(self.0);
             }
+            7 => {
+                // the static check does not depend on how many entities are asked for
+                let _ = self.0.query_many_mut::<Q, 1>([self.2]);
+            }
+            8 => {
+                let _ = self.0.query_many_mut::<Q, 2>([self.2, Entity::DANGLING]);
+            }
             _ => {
                 // a prepared query whose cache is already valid for this world (filled through the dynamically
                 // checked path, which has nothing to borrow here): the static check must not depend on the cache
@@ -430,6 +437,14 @@ impl Engine {
                     return vec![8];
                 }
                 if self.guards.slots[i].acquired {
+                    // a second use of an already acquired QueryBorrow (iter / iter_batched / view) takes nothing again
+                    let qidx = self.guards.slots[i].qidx;
+                    let mut obj = self.guards.slots[i].obj.take().unwrap();
+                    let res = catch_unwind(AssertUnwindSafe(|| crate::gen_queries::dispatch_query(qidx, AcquireQ(&mut obj, ((i + 1) % 3) as u64))));
+                    self.guards.slots[i].obj = Some(obj);
+                    if res.is_err() {
+                        out.flag("C05: using an already acquired QueryBorrow a second time panicked".to_string());
+                    }
                     return vec![0];
                 }
                 let qidx = self.guards.slots[i].qidx;
